@@ -91,3 +91,58 @@ def run(chk):
             chk.violation(f'{key}:not-repeatable', f'{name}.apply(mutable={mut!r}) call #{rep} differs from call #0 on identical inputs',
                           {'layer': name, 'mutable': str(mut)})
           first.setdefault(str(mut), res)
+
+
+def dict_valued_variable_probe(chk):
+  """A variable whose value is a dict: created from a caller's dict (argument / closure), then assigned another mapping. The caller's
+  dicts are inputs of apply and stay as they were."""
+  import copy
+
+  class A(nn.Module):
+    @nn.compact
+    def __call__(self, init, upd):
+      v = self.variable('cache', 't', lambda: init)
+      v.value = upd
+      return jnp.zeros(())
+
+  class B(nn.Module):      # the same through put_variable, one level down
+    @nn.compact
+    def __call__(self, init, upd):
+      return Inner()(init, upd)
+
+  class Inner(nn.Module):
+    @nn.compact
+    def __call__(self, init, upd):
+      self.put_variable('cache', 't', init)
+      self.put_variable('cache', 't', upd)
+      return jnp.zeros(())
+  for name, mod in (('variable', A()), ('put_variable-in-child', B())):
+    for rep in range(2):
+      init = {'a': np.int32(1), 'n': {'x': np.int32(1)}}
+      upd = {'a': np.int32(5), 'n': {'y': np.int32(2)}}
+      i0, u0 = copy.deepcopy(init), copy.deepcopy(upd)
+      key = f'C01:dict-valued-variable:{name}'
+      chk.count((key, rep))
+      try:
+        _, vs = mod.apply({}, init, upd, mutable=['cache'])
+      except Exception as e:
+        chk.violation(key, f'raised {type(e).__name__}: {str(e)[:160]}', {})
+        break
+      if repr(init) != repr(i0) or repr(upd) != repr(u0):
+        chk.violation(key + ':argument-mutated', f'apply changed its dict arguments in place: {i0} -> {init}, {u0} -> {upd}', {})
+        break
+      leaf = jax.tree_util.tree_leaves(vs)
+      jax.tree_util.tree_map(lambda x: x, vs)
+      # the returned collection does not alias the arguments either
+      got = vs['cache']['t'] if name == 'variable' else vs['cache']['Inner_0']['t']
+      if got is init or got is upd or (isinstance(got.get('n'), dict) and (got['n'] is init['n'] or got['n'] is upd['n'])):
+        chk.violation(key + ':result-aliases-argument', 'the returned collection shares a dict with an argument of apply', {})
+        break
+
+
+_run_layers = run
+
+
+def run(chk):
+  _run_layers(chk)
+  dict_valued_variable_probe(chk)
